@@ -2,6 +2,7 @@ package main
 
 import (
 	"fmt"
+	"go/ast"
 	"go/constant"
 	"go/token"
 	"go/types"
@@ -688,4 +689,41 @@ func phiOnPath(p *ssa.Phi, blocks []*ssa.BasicBlock) ssa.Value {
 		}
 	}
 	return nil
+}
+
+// declName returns a stable name for a top-level declaration: Func, (*T).Method, or the first declared name of a GenDecl.
+func declName(d ast.Decl) string {
+	switch x := d.(type) {
+	case *ast.FuncDecl:
+		if x.Recv != nil && len(x.Recv.List) > 0 {
+			t := x.Recv.List[0].Type
+			ptr := ""
+			if s, ok := t.(*ast.StarExpr); ok {
+				t = s.X
+				ptr = "*"
+			}
+			if ix, ok := t.(*ast.IndexExpr); ok {
+				t = ix.X
+			}
+			if id, ok := t.(*ast.Ident); ok {
+				return "(" + ptr + id.Name + ")." + x.Name.Name
+			}
+		}
+		return x.Name.Name
+	case *ast.GenDecl:
+		if x.Tok == token.IMPORT {
+			return ""
+		}
+		for _, s := range x.Specs {
+			switch sp := s.(type) {
+			case *ast.ValueSpec:
+				if len(sp.Names) > 0 {
+					return sp.Names[0].Name
+				}
+			case *ast.TypeSpec:
+				return sp.Name.Name
+			}
+		}
+	}
+	return ""
 }
